@@ -91,6 +91,10 @@ SKELETONS = [
     ('sibling_combines', 'T(x, a, b) :- x == 9000, a Max= (9001 :- y == 9001), b Max= (z :- z == 9002, z == x);\n', [[0, 2], [1]], {}, ('T', {0: 0, 1: 1, 2: 2})),
     ('sibling_combines_rev', 'T(x, a, b) :- x == 9000, b Max= (z :- z == 9002, z == x), a Max= (9001 :- y == 9001);\n', [[0, 2], [1]], {}, ('T', {0: 0, 1: 1, 2: 2})),
     ('sibling_combines_outer_value', 'T(x, a, b) :- x == 9000, a Max= (9001 :- y == 9001), b Max= (x :- z == 9002);\n', [[0], [1], [2]], {}, ('T', {0: 0, 1: 1, 2: 0})),
+    # typing literals `x ~ Num / Str / Bool` constrain like any other occurrence (added after seeded change C05-r7)
+    ('typing_bool', 'T(x) :- x == 9000, x ~ Bool;\n', [[0]], {0: 2}, ('T', {0: 0})),
+    ('typing_num_first', 'T(x) :- x ~ Num, x == 9000;\n', [[0]], {0: 0}, ('T', {0: 0})),
+    ('typing_str_callee', 'P(9000);\nT(x) :- P(x), x ~ Str;\n', [[0]], {0: 1}, ('T', {0: 0})),
     ('injected', 'F(x) = x :- x == 9000;\nT(y) :- y == F(9001), y == 9002;\n', [[0, 1, 2]], {}, ('T', {0: 0})),
 ]
 
